@@ -58,4 +58,34 @@ theorem http_error_raises (hash : Nat → Nat) (prior : Option Nat) (ds : List D
   simp [download, start, checkSum, fetch, logData] <;>
   (repeat' split) <;> simp_all [nData]
 
+theorem ok_with_fixed_checksum (hash : Nat → Nat) (prior : Option Nat) (ds : List DataResp) (h n : Nat)
+    (hn : 3 ≤ n)
+    (hret : (download hash (start prior ds (List.replicate n (.avail h)))).2 = .skipped ∨
+            (download hash (start prior ds (List.replicate n (.avail h)))).2 = .done) :
+    ∃ b, (download hash (start prior ds (List.replicate n (.avail h)))).1.file = some b ∧ hash b = h := by
+  obtain ⟨m, rfl⟩ : ∃ m, n = m + 3 := ⟨n - 3, by omega⟩
+  revert hret
+  rcases prior with _ | p <;>
+  rcases ds with _ | ⟨_ | _, _ | ⟨_ | _, ds⟩⟩ <;>
+  simp [List.replicate_succ, download, start, checkSum, fetch, logData] <;>
+  (repeat' split) <;> simp_all
+
+theorem retry_iff (hash : Nat → Nat) (b : Nat) (ds : List DataResp) (a : SumResp) (ss : List SumResp) :
+    nData (download hash (start none (.body b :: ds) (a :: ss))).1.log = 2 ↔ ∃ h, a = .avail h ∧ hash b ≠ h := by
+  rcases a with h | _ <;>
+  rcases ds with _ | ⟨_ | _, ds⟩ <;>
+  rcases ss with _ | ⟨_ | _, ss⟩ <;>
+  simp [download, start, checkSum, nData, fetch, logData] <;>
+  (repeat' split) <;> simp_all
+
+theorem raises_iff (hash : Nat → Nat) (prior : Option Nat) (ds : List DataResp) (h n : Nat) (hn : 3 ≤ n) :
+    (download hash (start prior ds (List.replicate n (.avail h)))).2 = .mismatch ↔
+      (∀ b, prior = some b → hash b ≠ h) ∧
+      ∃ b1 b2 rest, ds = .body b1 :: .body b2 :: rest ∧ hash b1 ≠ h ∧ hash b2 ≠ h := by
+  obtain ⟨m, rfl⟩ : ∃ m, n = m + 3 := ⟨n - 3, by omega⟩
+  rcases prior with _ | p <;>
+  rcases ds with _ | ⟨_ | _, _ | ⟨_ | _, ds⟩⟩ <;>
+  simp [List.replicate_succ, download, start, checkSum, fetch, logData] <;>
+  (repeat' split) <;> simp_all <;> exact ⟨_, _, ⟨rfl, rfl⟩, ‹_›, ‹_›⟩
+
 end PhyVerif.C20.Lemmas
